@@ -25,7 +25,7 @@
 (* TLC checks on every input that A's verdict equals R's (hence does not   *)
 (* depend on perm) and prints one CASE per (graph, kinds, permutation).    *)
 (***************************************************************************)
-EXTENDS Naturals, Integers, Sequences, FiniteSets, TLC, SequencesExt, FiniteSetsExt
+EXTENDS Naturals, Integers, Sequences, FiniteSets, TLC, SequencesExt, FiniteSetsExt, IOUtils
 
 CONSTANTS MinN, MaxN,      \* number of declarations
           Kinds,           \* subset of {"c", "s", "f"}
@@ -38,6 +38,16 @@ CONSTANTS MinN, MaxN,      \* number of declarations
 VARIABLES n, kind, val, ptr, pairs, cur, perm, phase, sched, k, alg
 
 vars == <<n, kind, val, ptr, pairs, cur, perm, phase, sched, k, alg>>
+
+\* The algorithm model follows the tree under test: the check probes the compiler and tells the model
+\* through the environment which of the fixes it contains (the rule R never changes).
+\*   PENNE_FIXED_E416        E416 only if a constant is part of the cycle (not merely contained)
+\*   PENNE_FIXED_SIZEOF_PTR  |:&S| in an initialiser registers no containment
+\*   PENNE_FIXED_PTR_UNFOUNDED  cyclical structures are poisoned in the typer before anything is typed
+EnvIs(name) == name \in DOMAIN IOEnv /\ IOEnv[name] = "1"
+FixedE416 == EnvIs("PENNE_FIXED_E416")
+FixedSizeofPtr == EnvIs("PENNE_FIXED_SIZEOF_PTR")
+FixedPtrUnfounded == EnvIs("PENNE_FIXED_PTR_UNFOUNDED")
 
 IsC(kd, a) == kd[a] = "c"
 IsS(kd, a) == kd[a] = "s"
@@ -94,7 +104,7 @@ Topological(E, order) == \A e \in E : Pos(order, e[2]) < Pos(order, e[1])
 (* members in member order.  The renderer writes the references of one     *)
 (* declaration in ascending order of the referenced declaration.           *)
 (***************************************************************************)
-Refs(kd, V, P, a) == IF IsC(kd, a) THEN Succ(V, a) \cup Succ(P, a)       \* |:&b| registers b as well
+Refs(kd, V, P, a) == IF IsC(kd, a) THEN Succ(V, a) \cup (IF FixedSizeofPtr THEN {} ELSE Succ(P, a))   \* |:&b| registers b as well
                      ELSE IF IsS(kd, a) THEN Succ(V, a)                     \* pointer members do not
                      ELSE {}
 RECURSIVE SchedFrom(_, _, _, _, _)
@@ -116,7 +126,7 @@ AStep(kd, st, step) ==
     IN IF a \in st.ids[a] THEN [st EXCEPT !.res = "poisoned"]
        ELSE IF a \in new
        THEN LET code == IF IsS(kd, a)
-                        THEN (IF \E c \in new : IsC(kd, c) THEN 416 ELSE 415)
+                        THEN (IF \E c \in new : IsC(kd, c) /\ (FixedE416 => a \in st.ids[c]) THEN 416 ELSE 415)
                         ELSE 413
             IN [ids |-> [st.ids EXCEPT ![a] = new],
                 errs |-> Append(st.errs, [node |-> a, code |-> code]),
@@ -158,7 +168,7 @@ AOrder(kd, dep, pm) == StableSort(kd, dep, pm, { SortKey(kd, dep, pm[x]) : x \in
 \* the poisoned containers); a well-founded structure with a pointer member to a poisoned structure is
 \* typed while that structure is still unknown to the typer (observed: panic in the resolver).
 APtrToUnfounded(kd, P, dep) ==
-    \E p \in P : IsS(kd, p[1]) /\ IsS(kd, p[2]) /\ dep[p[1]] >= 0 /\ dep[p[2]] = -1
+    ~FixedPtrUnfounded /\ \E p \in P : IsS(kd, p[1]) /\ IsS(kd, p[2]) /\ dep[p[1]] >= 0 /\ dep[p[2]] = -1
 RECURSIVE TypeFrom(_, _, _, _, _, _)
 TypeFrom(kd, V, P, order, x, acc) ==
     IF x > Len(order) THEN acc
@@ -261,5 +271,5 @@ SoundBody(r, md, order) ==
 Sound == phase = "end" => SoundBody(Rule(n, kind, val), ModelDepths, ModelOrder)
 \* the closure is exact as long as nothing was rejected (Stepwise only)
 ClosureOK == (phase = "run" /\ alg.errs = <<>>) =>
-    \A a \in Cs : alg.ids[a] \subseteq Below(val \cup { p \in ptr : IsC(kind, p[1]) }, a)
+    \A a \in Cs : alg.ids[a] \subseteq Below(val \cup { p \in ptr : IsC(kind, p[1]) /\ ~FixedSizeofPtr }, a)
 =============================================================================
